@@ -90,6 +90,11 @@ class Check:
                 doc = json.load(f)
             self.findings += [x for x in doc.get('findings', []) if x['property'] == property_id]
         os.makedirs(REPLAY, exist_ok=True)
+        for old in glob.glob(os.path.join(REPLAY, f'{property_id}-*.json')):   # replay files of earlier runs
+            try:
+                os.unlink(old)
+            except OSError:
+                pass
 
     # ---------------------------------------------------------------- TLC bookkeeping
     def add_tlc(self, name: str, res: TlcResult, *, expect_ok: bool = True):
